@@ -5,6 +5,8 @@
 -/
 import Caches.Lemmas.TwoQ
 import Caches.Props.TwoQSpec
+import Caches.Props.TwoQMachine
+import Caches.Lemmas.Reach
 set_option linter.unusedSectionVars false
 set_option linter.unusedVariables false
 set_option linter.unusedSimpArgs false
@@ -250,4 +252,73 @@ example : TwoQSpec.fromRecent [(1, 1), (2, 2)] [(3, 3)] 2 true = true ∧
 example : ({ size := 3, rs := 1, recent := ⟨3, [(1, 10), (5, 50)], false⟩, frequent := ⟨3, [(2, 20)], false⟩,
              ghost := ⟨2, [(3, 30)], false⟩ } : TwoQ Nat Nat).Inv := by
   constructor <;> decide
+/-! ### the other entry points, and every history -/
+
+/-- **`remove` = the policy**: frequent, recent, then the ghost list -/
+theorem remove_eq_spec (q : TwoQ κ ν) (k : κ) :
+    ((q.remove k).1.recent.items, (q.remove k).1.frequent.items, (q.remove k).1.ghost.items, (q.remove k).2.1) =
+      TwoQSpec.remove q.recent.items q.frequent.items q.ghost.items k := by
+  unfold TwoQ.remove RawLru.remove TwoQSpec.remove
+  cases hf : find k q.frequent.items <;> cases hr : find k q.recent.items <;> cases hg : find k q.ghost.items <;> simp
+
+/-- **`peek_mut` (+ write) = the policy** -/
+theorem peekMut_eq_spec (q : TwoQ κ ν) (k : κ) (w : Option ν) :
+    ((q.peekMut k w).1.recent.items, (q.peekMut k w).1.frequent.items, (q.peekMut k w).1.ghost.items) =
+      TwoQSpec.peekMut q.recent.items q.frequent.items q.ghost.items k w := by
+  unfold TwoQ.peekMut RawLru.peekMut TwoQSpec.peekMut
+  cases hf : find k q.frequent.items <;> cases hr : find k q.recent.items <;> cases w <;> simp
+
+/-- **every operation = the policy**, on every well-formed cache -/
+theorem step_eq_spec (q : TwoQ κ ν) (o : CacheOp κ ν) (h : q.Inv) :
+    ∃ q', q.step o = .ok q' ∧
+      (q'.recent.items, q'.frequent.items, q'.ghost.items) =
+        TwoQSpec.step q.size q.rs q.ghost.cap (q.recent.items, q.frequent.items, q.ghost.items) o := by
+  cases o with
+  | put k v =>
+    obtain ⟨r, q', d, hp, he⟩ := put_eq_spec q k v h
+    exact ⟨q', by simp only [TwoQ.step, hp], by simp only [TwoQSpec.step, ← he]⟩
+  | getMut k w =>
+    obtain ⟨r, q', hp, he⟩ := get_eq_spec q k w h
+    exact ⟨q', by simp only [TwoQ.step, hp], by simp only [TwoQSpec.step, ← he]⟩
+  | peekMut k w => exact ⟨_, rfl, by simp only [TwoQSpec.step, ← peekMut_eq_spec]⟩
+  | remove k => exact ⟨_, rfl, by simp only [TwoQSpec.step, ← remove_eq_spec]⟩
+  | purge =>
+    refine ⟨{ q with frequent := { q.frequent with items := [] }, recent := { q.recent with items := [] },
+                     ghost := { q.ghost with items := [] } }, ?_, rfl⟩
+    simp only [TwoQ.step, TwoQ.purge, RawLru.purge_spec]
+  | read => exact ⟨q, rfl, rfl⟩
+
+/-- **refinement over every history**: from any accepted constructor, any sequence of public operations runs
+    without a fault and leaves recent, frequent and ghost holding exactly what the 2Q policy, folded over the same
+    sequence from three empty lists, says — entry by entry, in recency order -/
+theorem history_eq_spec (size : Nat) (rr gr : RatioClass) (rs es : Nat) (q0 : TwoQ κ ν)
+    (hn : TwoQ.new size rr gr rs es = .ok q0) (ops : List (CacheOp κ ν)) :
+    ∃ q', runOps TwoQ.step q0 ops = .ok q' ∧
+      (q'.recent.items, q'.frequent.items, q'.ghost.items) = ops.foldl (TwoQSpec.step size rs es) ([], [], []) := by
+  have hi0 := TwoQ.inv_new size rr gr rs es q0 hn
+  obtain ⟨h1, h2, h3, _⟩ := ctor_spec size rr gr rs es q0 hn
+  have hl0 : (q0.recent.items, q0.frequent.items, q0.ghost.items) = (([], [], []) : AL κ ν × AL κ ν × AL κ ν) := by
+    unfold TwoQ.new at hn
+    repeat (split at hn; · simp at hn)
+    injection hn with hn; subst hn; rfl
+  suffices H : ∀ (ops : List (CacheOp κ ν)) (q : TwoQ κ ν) (S : AL κ ν × AL κ ν × AL κ ν), TwoQ.InvC size rs es q →
+      (q.recent.items, q.frequent.items, q.ghost.items) = S →
+      ∃ q', runOps TwoQ.step q ops = .ok q' ∧
+        (q'.recent.items, q'.frequent.items, q'.ghost.items) = ops.foldl (TwoQSpec.step size rs es) S from
+    H ops q0 _ ⟨hi0, h1, h2, h3⟩ hl0
+  intro ops
+  induction ops with
+  | nil => intro q S _ he; exact ⟨q, rfl, he⟩
+  | cons o rest ih =>
+    intro q S hc he
+    obtain ⟨q1, hs1, hc1⟩ := TwoQ.step_invC size rs es q o hc
+    obtain ⟨q1', hs1', he1⟩ := step_eq_spec q o hc.1
+    rw [hs1] at hs1'; injection hs1' with hs1'; subst hs1'
+    rw [hc.2.1, hc.2.2.1, hc.2.2.2, he] at he1
+    obtain ⟨q2, hs2, he2⟩ := ih q1 _ hc1 he1
+    exact ⟨q2, by simp only [runOps, hs1, hs2], by simp only [List.foldl_cons, he2]⟩
+
+/-- non-vacuity of the history theorem: first sight, second access, eviction to ghost, ghost revival, removal -/
+example : [CacheOp.put 1 10, .put 2 20, .getMut 1 none, .put 3 30, .put 4 40, .put 2 21, .remove 3].foldl
+    (TwoQSpec.step 2 1 2) (([], [], []) : AL Nat Nat × AL Nat Nat × AL Nat Nat) = ([(4, 40)], [(2, 21)], [(1, 10)]) := by decide
 end C08
